@@ -648,6 +648,17 @@ func modeC01() {
 			}
 		}
 	}
+	// the chunk size changes between files: the sender resolves its parameters once at the start
+	// and once per file, and every file's geometry must follow the size announced for that file
+	for _, seq := range [][]uint32{{4, 8}, {8, 4}, {4, 4, 2}, {2, 5, 3}, {3, 3, 3, 7}} {
+		for _, s := range []int{1, 2} {
+			for _, cn := range []int{1, 2} {
+				for _, rs := range []bool{false, true} {
+					cases = append(cases, Case{Tree: []Entry{{Path: "a.bin", Size: 9}, {Path: "b.bin", Size: 13}, {Path: "sub/c.bin", Size: 7}}, Chunk: seq[0], ChunkSeq: seq, Streams: s, Conns: cn, Resume: rs, NoRootDir: true})
+				}
+			}
+		}
+	}
 	n := 0
 	for i, c := range cases {
 		if !vlib.Mine(i) {
